@@ -279,7 +279,8 @@ class Prop:
                    "entries-only is observed on values: every tuple of arguments passed to the function equals the tuple of "
                    "entries of the given tensors at some common position"]
     THEOREMS = ["C08_core_identity_pattern", "C08_skeleton_unit", "C08_interpolation", "C08_rinterface_consistent",
-                "C08_linterface_consistent", "C08_argument_is_entry", "C08_point_in_grid",
+                "C08_linterface_consistent", "C08_argument_is_entry", "C08_cur_exact", "C08_exact_recovery_sweep",
+                "C08_qr_core_is_skeleton_core", "C08_run_arguments_are_entries", "C08_point_in_grid",
                 "C08_lsets_nested", "C08_rsets_nested", "C08_lsets_in_grid", "C08_rsets_in_grid", "C08_run_in_grid",
                 "C08_argmin_evaluated", "C08_attained_ge_min", "C08_min_estimate_is_sample"]
 
